@@ -188,17 +188,17 @@ pub fn check_component(bytes: &[u8], label: &str, check_imported: bool) -> (Vec<
                 b.component_raw(None, bytes);
                 b.component_raw(None, &out);
                 let wrapper = b.finish();
+                // cause qualifier: does the world export an interface together with an
+                // interface it uses a type of? (the one listed finding of this family)
+                let exported: Vec<String> = world.exports.keys().cloned().collect();
+                let uses_exported = world.exports.values().any(|k| match k {
+                    wac_graph::types::ItemKind::Instance(i) => types[*i].uses.values().any(|u| types[u.interface].id.as_ref().is_some_and(|n| exported.contains(n))),
+                    _ => false,
+                });
                 match wasmparser::Validator::new_with_features(wasmparser::WasmFeatures::all()).validate_all(&wrapper) {
                     Err(e) => {
                         stats.imported_failed += 1;
                         let m = mc_core::msg_class(e.message());
-                        // cause qualifier: does the world export an interface together with an
-                        // interface it uses a type of? (the one listed finding of this family)
-                        let exported: Vec<String> = world.exports.keys().cloned().collect();
-                        let uses_exported = world.exports.values().any(|k| match k {
-                            wac_graph::types::ItemKind::Instance(i) => types[*i].uses.values().any(|u| types[u.interface].id.as_ref().is_some_and(|n| exported.contains(n))),
-                            _ => false,
-                        });
                         let cause = if uses_exported { "world-exports-an-interface-and-one-it-uses" } else { "other-world-shape" };
                         v.push((format!("C08/imported/output-invalid[{m}]/{cause}"), format!("{label}: the encoding with imported dependencies is invalid: {e}")));
                     }
@@ -215,7 +215,7 @@ pub fn check_component(bytes: &[u8], label: &str, check_imported: bool) -> (Vec<
                                 } else {
                                     stats.imported_failed += 1;
                                     v.push((
-                                        "C08/imported/original-does-not-satisfy-written-type".into(),
+                                        if uses_exported { "C08/imported/original-does-not-satisfy-written-type/world-exports-an-interface-and-one-it-uses".to_string() } else { "C08/imported/original-does-not-satisfy-written-type".to_string() },
                                         format!("{label}: the original component is not a subtype of the component type written for its `unlocked-dep` import"),
                                     ));
                                 }
@@ -244,7 +244,9 @@ pub fn run(args: &[String]) {
         ctx.finish(Map::new(), vec![]);
     }
     let tier = ctx.tier();
-    let cases = witgen::enumerate(tier);
+    let mut cases = witgen::enumerate(tier);
+    let template_cases = cases.len();
+    cases.extend(witgen::enumerate_worlds(tier));
     let jobs: Vec<(usize, String)> = cases.iter().enumerate().flat_map(|(i, c)| c.worlds.iter().map(move |w| (i, w.clone()))).collect();
     let outs: Vec<(usize, String, Result<(Vec<Viol>, CaseStats), String>)> = jobs
         .par_iter()
@@ -261,11 +263,13 @@ pub fn run(args: &[String]) {
     let mut uses = 0u64;
     let mut imported_ok = 0u64;
     let mut gen_errors = 0u64;
+    let mut product_rejected = 0u64;
     let mut by_tag: BTreeMap<String, u64> = BTreeMap::new();
     let mut samples = Samples::new(3);
     for (i, w, r) in outs {
         let c = &cases[i];
         match r {
+            Err(_) if i >= template_cases => product_rejected += 1,
             Err(e) => {
                 gen_errors += 1;
                 if gen_errors <= 3 {
@@ -319,13 +323,14 @@ pub fn run(args: &[String]) {
     cov.insert("wit_packages".into(), json!(cases.len()));
     cov.insert("worlds_built_into_components".into(), json!(jobs.len()));
     cov.insert("rejected_by_reference_toolchain".into(), json!(gen_errors));
+    cov.insert("world_product_sequences_rejected_by_reference_toolchain".into(), json!(product_rejected));
     cov.insert("world_items_compared".into(), json!(items));
     cov.insert("use_edges_expected_by_reference".into(), json!(uses));
     cov.insert("imported_dependency_type_satisfied".into(), json!(imported_ok));
     cov.insert("cases_by_tag".into(), json!(by_tag));
     cov.insert(
         "rule".into(),
-        json!("every world of every generated WIT package (mc-core witgen: all type declarations x function shapes, dependent declarations, use chains/diamonds/renames/derived types, world shapes incl. include-with) is built into a real component (wit-component dummy module), loaded with Package::from_bytes, and every import/export is compared, in order, with the reference validator's entity type through two independent canonical printers sharing one resource numbering per world; use provenance is compared with type identity in the validator; with define_components=false the original must be a subtype of the written unlocked-dep component type inside one wrapper; plus the hand-shaped type universe of C07 and the LibHand components"),
+        json!("every world of every generated WIT package (mc-core witgen: all type declarations x function shapes, dependent declarations, use chains/diamonds/renames/derived types, world shapes incl. include-with; plus the world-shape product family: every ordered sequence of 1..3 distinct world items from a 17-item alphabet the reference toolchain accepts) is built into a real component (wit-component dummy module), loaded with Package::from_bytes, and every import/export is compared, in order, with the reference validator's entity type through two independent canonical printers sharing one resource numbering per world; use provenance is compared with type identity in the validator; with define_components=false the original must be a subtype of the written unlocked-dep component type inside one wrapper; plus the hand-shaped type universe of C07 and the LibHand components"),
     );
     let _ = Tier::Quick;
     ctx.finish(
